@@ -12,6 +12,7 @@ def clean():
     sh("git checkout -- . && git clean -fdq -e target")
 clean()
 destp = os.path.join(wt, dest)
+os.makedirs(os.path.dirname(destp), exist_ok=True)
 res = {}
 sh("cp %s %s" % (os.path.join(out, "demo.rs"), destp))
 r = sh(cmd); res["demo_clean_passes"] = r.returncode == 0
